@@ -281,6 +281,12 @@ func explore(t *testing.T, l core.Lens, job *Job, emit func(rec)) {
 			st.DetCompared++
 			if res2.Hash == res.Hash && res2.Abstract == res.Abstract && len(res2.Violations) == len(res.Violations) {
 				st.DetMatched++
+			} else if res2.Abstract == res.Abstract && len(res2.Violations) == len(res.Violations) {
+				// Same operations, same faults, same verdicts; only the event log differs - names the code under test
+				// makes up from a counter, its process id or the global math/rand source (temporary files, say). A
+				// changed tree may do that; the tree as it is does not (the cross-process determinism self-test
+				// compares full event logs). Counted, shown in the evidence, not an error.
+				st.Extra["reexecution_same_verdict_other_event_log"]++
 			} else {
 				emit(rec{"type": "harness", "class": "HARNESS/nondeterminism", "detail": fmt.Sprintf("seed %d index %d: hash %x vs %x, violations %d vs %d", plan.Seed, idx, res.Hash, res2.Hash, len(res.Violations), len(res2.Violations))})
 			}
